@@ -105,7 +105,9 @@ def execute(cases_, tier, seed):
             # only errors that arise inside the expansion of a #[derive(..)] the generated code carries (other type errors are C01's)
             # any error inside the expansion of a derive: the type does not get the trait it promises (e.g. a serde attribute that does not
             # fit the field type makes derive(Serialize) fail with E0308)
-            derive_errs = [e for e in m_errs if e.get("derive")]
+            # ... and errors located on an attribute line of a type (#[serde(default = "path")] naming a function that does not exist):
+            # the derive that reads the attribute cannot produce the impl either
+            derive_errs = [e for e in m_errs if e.get("derive") or (e.get("src") or "").startswith(("#[serde(", "#[derive(", "#[serde ("))]
             if derive_errs:
                 res.violations.append(Violation(wc.key, "underivable-trait", "%s: a derived trait cannot be implemented: %s" % (wc.id, derive_errs[0]["msg"]), wc.placed,
                                                 expected="traits never appear on a type that cannot derive them", observed=derive_errs[:5], features=feats,
